@@ -928,7 +928,158 @@ func checkClockRebuild(c *Ctx) {
 		}
 		c.Check(okHead, "R5.4", "dag.readClockNoCheck:edit-time-of-head", w.FnPos(rf), "the edit clock is rebuilt from the head commit", "the edit time witnessed when rebuilding clocks can come from an ancestor commit instead of the head: the rebuilt clock is lower than times stored in reachable commits")
 		c.Check(seen["create"] == "0" && seen["edit"] == "1", "R5.4", "dag.readClockNoCheck:witness-roles", w.FnPos(rf), "creation clock ← create time, edit clock ← edit time", fmt.Sprintf("clock rebuild witnesses the wrong values (create clock ← result %q, edit clock ← result %q of readOperationPackClock)", seen["create"], seen["edit"]))
-		// all refs: ReadAllClocksNoCheck ranges over ListRefs result without filtering
+	}
+	// all refs of the namespace: ReadAllClocksNoCheck lists refs/‹Namespace›/ and reads every ref listed
+	if ra := w.Func("entity/dag", "ReadAllClocksNoCheck"); ra != nil {
+		c.seeFn(funcName(ra))
+		okPrefix, whyP := false, "no listing of the entity refs found"
+		var listed ssa.Value
+		for _, cl := range Calls(ra) {
+			if !strings.HasSuffix(cl.Name, ".ListRefs") {
+				continue
+			}
+			c.Sites++
+			listed = cl.Value()
+			for _, t := range templatesOf(cl.Args()[0]) {
+				h := t.Holes()
+				if strings.HasPrefix(t.Shape(), "refs/‹›/") && len(h) == 1 && isNamespaceHole(h[0]) {
+					okPrefix = true
+				} else {
+					okPrefix, whyP = false, "the refs listed to rebuild the clocks are "+t.String()+", not refs/‹Namespace›/: the rebuild runs, succeeds and witnesses nothing — the clocks restart at 1 below the stored entities"
+					break
+				}
+			}
+		}
+		c.Check(okPrefix, "R5.4", "dag.ReadAllClocksNoCheck:lists-the-namespace", w.FnPos(ra), "lists refs/‹Namespace›/", whyP)
+		okEach := false
+		for _, cl := range CallsNamed(ra, "entity/dag.readClockNoCheck") {
+			a := cl.Args()
+			if len(a) < 3 {
+				continue
+			}
+			fromList := false
+			for _, o := range origins(a[2]) {
+				if listed != nil && o.Kind == "call" && o.Val == listed {
+					fromList = true
+				}
+			}
+			exits, _ := earlyLoopExits(ra)
+			if fromList && enclosingLoopHeader(cl.Block()) != nil && errorPropagated(cl.Value(), nil) && len(exits) == 0 {
+				only, _ := onlyControlledBy(cl.Block(), func(cc controlCond) bool {
+					e := errEdge(cc.If, defaultFail)
+					return e >= 0 && e != cc.Edge
+				})
+				okEach = only
+			}
+		}
+		c.Check(okEach, "R5.4", "dag.ReadAllClocksNoCheck:reads-every-ref", w.FnPos(ra), "every listed ref is read, errors propagated", "not every listed ref has its clocks read (filtered, left early, or errors dropped)")
+	} else {
+		c.Undecided("R5.4", "anchor:dag.ReadAllClocksNoCheck", "entity/dag", "not found")
+	}
+	// one clock instance per name and process (R5.5)
+	c.Doc("R5.5", "GoGitRepo.getClock hands out one instance per clock name for the life of the process: it answers from the clocks map first, and a clock it loads is put into that map before it is returned; MemClock.Witness retries when its compare-and-swap lost against a concurrent update (it never returns having recorded nothing)")
+	if gc := w.Method("repository", "GoGitRepo", "getClock"); gc != nil {
+		c.seeFn(funcName(gc))
+		okLookup, okStore := false, true
+		nLoaded := 0
+		for _, b := range gc.Blocks {
+			for _, ins := range b.Instrs {
+				lk, isLk := ins.(*ssa.Lookup)
+				if !isLk || !lk.CommaOk {
+					continue
+				}
+				if _, fld, isF := loadOfField(lk.X); !isF || fld != "clocks" {
+					continue
+				}
+				// found edge returns the value looked up
+				for _, r := range *lk.Referrers() {
+					ex, isEx := r.(*ssa.Extract)
+					if !isEx || ex.Index != 1 {
+						continue
+					}
+					for _, u := range condUsers(ex) {
+						te := 0
+						if u.Neg {
+							te = 1
+						}
+						tb := u.If.Block().Succs[te]
+						if ret, isRet := tb.Instrs[len(tb.Instrs)-1].(*ssa.Return); isRet && returnKind(ret) != RetError {
+							for _, o := range origins(ReturnResult(ret, 0)) {
+								if o.Val == ssa.Value(lk) || (o.Kind == "unknown" && strings.Contains(o.Name, lk.Name())) {
+									okLookup = true
+								}
+							}
+							if ex0, isE0 := stripConv(ReturnResult(ret, 0)).(*ssa.Extract); isE0 && ex0.Tuple == ssa.Value(lk) {
+								okLookup = true
+							}
+						}
+					}
+				}
+			}
+		}
+		for _, r := range Returns(gc) {
+			if returnKind(r) == RetError {
+				continue
+			}
+			for _, o := range origins(ReturnResult(r, 0)) {
+				if o.Kind != "call" || !(strings.HasSuffix(o.Name, "LoadPersistedClock") || strings.HasSuffix(o.Name, "NewPersistedClock")) {
+					continue
+				}
+				nLoaded++
+				stored := false
+				for _, b := range gc.Blocks {
+					for _, ins := range b.Instrs {
+						if mu, isMU := ins.(*ssa.MapUpdate); isMU && instrDominates(mu, r) {
+							if _, fld, isF := loadOfField(mu.Map); isF && fld == "clocks" {
+								for _, o2 := range origins(mu.Value) {
+									if o2.Val == o.Val {
+										stored = true
+									}
+								}
+							}
+						}
+					}
+				}
+				if !stored {
+					okStore = false
+				}
+			}
+		}
+		c.Sites += 2
+		c.Check(okLookup, "R5.5", "GoGitRepo.getClock:answers-from-memory-first", w.FnPos(gc), "a clock already handed out is answered from the clocks map", "getClock does not answer from the in-memory clocks map first: the clock is re-read from its file on every use, and when the file disappears under a running process the clock restarts at 1 although this process has already handed out higher times")
+		c.Check(okStore && nLoaded > 0, "R5.5", "GoGitRepo.getClock:loaded-clock-remembered", w.FnPos(gc), "a loaded clock is stored in the clocks map before it is returned", "a clock loaded from its file is returned without being remembered: two users of the same clock name get two instances")
+	} else {
+		c.Undecided("R5.5", "anchor:GoGitRepo.getClock", "repository", "not found")
+	}
+	if mw := w.Method("util/lamport", "MemClock", "Witness"); mw != nil {
+		okRetry, n := true, 0
+		for _, cl := range CallsNamed(mw, "sync/atomic.CompareAndSwapUint64") {
+			n++
+			c.Sites++
+			cv, _ := cl.Instr.(*ssa.Call)
+			for _, u := range condUsers(cv) {
+				fe := 1
+				if u.Neg {
+					fe = 0
+				}
+				fb := u.If.Block().Succs[fe]
+				isLoad := func(i ssa.Instruction) bool {
+					ci, ok := i.(ssa.CallInstruction)
+					if !ok {
+						return false
+					}
+					nn, _ := callName(ci.Common())
+					return nn == "sync/atomic.LoadUint64"
+				}
+				if found, _, _ := pathSearch(mw, nil, fb, isAnyReturn, isLoad, false); found {
+					okRetry = false
+				}
+			}
+			if len(condUsers(cv)) == 0 {
+				okRetry = false
+			}
+		}
+		c.Check(okRetry && n > 0, "R5.5", "MemClock.Witness:cas-retried", w.FnPos(mw), "a lost compare-and-swap reloads the counter and tries again", "when the compare-and-swap loses against a concurrent update Witness returns without having recorded the witnessed time: the next Increment can hand out a time not above what was just seen")
 	}
 	// (c) callers
 	nCalls := 0
